@@ -55,7 +55,7 @@ Reject(op, a) ==
   \/ op = "SetTimeProfile" /\ (\/ a.profile.from.t = "zero"
                                \/ a.profile.to.t = "zero"
                                \/ \E k \in 1..3 : \/ ~HasKey(a.profile.segments, k)
-                                                  \/ LET s == Lookup(a.profile.segments, k, 0) IN HHmmLT(s.end, s.start))
+                                                  \/ LET s == Lookup(a.profile.segments, k, [start |-> HM(0, 0), end |-> HM(0, 0)]) IN HHmmLT(s.end, s.start))
 
 \* ---- Request: the field values of the request message ----------------------------------------
 Weekday(pairs, d) == Lookup(pairs, d, FALSE)     \* time.Weekday: Sunday = 0 .. Saturday = 6
